@@ -367,11 +367,17 @@ fn fs_main(args: &[String]) {
   let n = fsmodel::cases(); let mut found = 0usize; let mut ran = 0usize;
   let range = match only { Some(i) => i..i + 1, None => 0..n };
   for i in range {
+    if i >= n { continue; }
     ran += 1;
     if let Err(f) = fsmodel::run_index(&dir, i) {
       println!("{{\"violation\":true,\"engine\":\"fs\",\"property\":\"{}\",\"obligation\":\"{}\",\"rerun\":{:?},\"what\":{:?},\"case\":\"\"}}", f.prop, f.ob, format!("fs-case --index {}", i), f.what);
       found += 1; if found >= 5 { break; }
     }
+  }
+  if only.is_none() || args.iter().any(|a| a == "--builds") {
+    std::panic::set_hook(Box::new(|_| {}));
+    ran += 1;
+    if let Err(f) = fsmodel::file_builds(&dir) { println!("{{\"violation\":true,\"engine\":\"fs\",\"property\":\"{}\",\"obligation\":\"{}\",\"rerun\":\"fs-case --builds --index 100000\",\"what\":{:?},\"case\":\"\"}}", f.prop, f.ob, f.what); found += 1; }
   }
   fsmodel::cleanup(&dir);
   println!("{{\"summary\":true,\"engine\":\"fs\",\"path_states\":{},\"cases\":{},\"violations\":{}}}", fsmodel::states().len(), ran, found);
